@@ -80,6 +80,10 @@ Definition is_null_type (t : N) : bool :=
 Definition no_lf (s : bytes) : bool := forallb (fun b => negb (b =? 10)) s.
 Definition nonempty {A} (l : list A) : bool := match l with [] => false | _ => true end.
 Definition len_ok {A} (l : list A) : bool := (zlen l <? two63)%Z.
+(** Go cannot allocate more than 2^48 bytes: a payload, or an aggregate of 40-byte messages, beyond that is not a reply any client could hold *)
+Definition max_len : Z := 281474976710656%Z.
+Definition blob_ok (s : bytes) : bool := (zlen s <=? max_len)%Z.
+Definition agg_ok {A} (l : list A) : bool := (zlen l * 40 <=? max_len)%Z.
 
 Definition decorable (v : rv) : bool :=
   match v with
@@ -90,12 +94,12 @@ Definition decorable (v : rv) : bool :=
 
 Fixpoint wf (v : rv) : bool :=
   match v with
-  | VBlob t s => is_blob_type t && len_ok s
+  | VBlob t s => is_blob_type t && blob_ok s
   | VBlobStream t cs => is_blob_type t && forallb (fun c => nonempty c && len_ok c) cs
   | VLine t s => is_line_type t && no_lf s
   | VInt i => in_i64b i
   | VBool _ => true
   | VNull t => is_null_type t
-  | VAgg t st l => is_agg_type t && len_ok l && (if t =? tMap then Nat.even (length l) else true) && forallb wf l
-  | VAttr kvs st v => len_ok kvs && Nat.even (length kvs) && forallb wf kvs && decorable v && wf v
+  | VAgg t st l => is_agg_type t && agg_ok l && (if t =? tMap then Nat.even (length l) else true) && forallb wf l
+  | VAttr kvs st v => agg_ok kvs && Nat.even (length kvs) && forallb wf kvs && decorable v && wf v
   end.
